@@ -1,11 +1,15 @@
 package main
 
-// C18: the REPL protocol and the no-rollback shape of compiler.Compile, read from the sources.
+// C18: the REPL protocol and the rollback-on-error shape of compiler.Compile, read from the sources.
 //   replCalls            package-/receiver-qualified calls of interest in repl.getEvaluator, in source order
 //   replSetsIPAfterError  `v.SetIP(code.InstructionCount())` inside the error branch of `if err := v.Run(ctx); err != nil`
 //   runResetsState        third argument of runCodeInternal in (*VirtualMachine).Run
-//   compileAssigns        what (*Compiler).Compile assigns through its receiver (nothing truncates the code,
-//                         nothing resets c.current: no rollback)
+//   compileRollsBackOnError  (*Compiler).Compile takes `c.main.mark()` in its first statement and every return of a
+//                         non-nil error sits in a branch that calls `c.main.rollback(...)`
+//   rollbackRestores      what (*Code).rollback assigns / which method of the symbol table it calls
+//   truncateRestores      what (*SymbolTable).truncate assigns / deletes from
+//   runStartsOnEmptyStack runCodeInternal, under `if !resetState`, pops the operand stack empty (`for vm.sp >= 0 { vm.pop() }`)
+//                         before the entrypoint is activated
 //   reloadCopiesGlobals   reloadCode copies the old globals into the freshly loaded main code
 //   compileOnlyRestores   per compile-only field of compiler.go (Code.pipeActive, Code.loops, Code.symbols,
 //                         loop.pendingSwitchValues, Compiler.current): does EVERY compile function that sets it
@@ -41,6 +45,14 @@ func c18Expr(fset *token.FileSet, e ast.Expr) string {
 }
 
 func c18FindFunc(f *ast.File, recv, name string) *ast.FuncDecl {
+	if fd := c18FindFuncOpt(f, recv, name); fd != nil {
+		return fd
+	}
+	panic("function " + recv + "." + name + " not found")
+}
+
+// c18FindFuncOpt returns nil when the function does not exist (a tree without the repair).
+func c18FindFuncOpt(f *ast.File, recv, name string) *ast.FuncDecl {
 	for _, d := range f.Decls {
 		fd, ok := d.(*ast.FuncDecl)
 		if !ok || fd.Name.Name != name {
@@ -59,7 +71,7 @@ func c18FindFunc(f *ast.File, recv, name string) *ast.FuncDecl {
 			}
 		}
 	}
-	panic("function " + recv + "." + name + " not found")
+	return nil
 }
 
 func c18_genC18(repo string) string {
@@ -292,24 +304,110 @@ func c18_genC18(repo string) string {
 		}
 		restorePairs = append(restorePairs, "("+leanStr(f)+", "+v+")")
 	}
-	// --- compiler.Compile
+	// --- compiler.Compile: rollback on error
 	comp := c18FindFunc(compFile, "Compiler", "Compile")
-	seen := map[string]bool{}
-	ast.Inspect(comp, func(n ast.Node) bool {
-		if as, ok := n.(*ast.AssignStmt); ok {
-			for _, l := range as.Lhs {
-				if s := c18Expr(fset, l); strings.HasPrefix(s, "c.") {
-					seen[s] = true
+	marksFirst := false
+	if len(comp.Body.List) > 0 {
+		ast.Inspect(comp.Body.List[0], func(n ast.Node) bool {
+			if c, ok := n.(*ast.CallExpr); ok && c18Expr(fset, c.Fun) == "c.main.mark" {
+				marksFirst = true
+			}
+			return true
+		})
+	}
+	errReturns, guardedReturns := 0, 0
+	var walkRet func(n ast.Node, rolledBack bool)
+	walkRet = func(n ast.Node, rolledBack bool) {
+		ast.Inspect(n, func(m ast.Node) bool {
+			switch x := m.(type) {
+			case *ast.FuncLit:
+				return false
+			case *ast.BlockStmt:
+				if m == n {
+					return true
+				}
+				rb := rolledBack
+				for _, st := range x.List {
+					if es, ok := st.(*ast.ExprStmt); ok {
+						if c, ok := es.X.(*ast.CallExpr); ok && c18Expr(fset, c.Fun) == "c.main.rollback" {
+							rb = true
+						}
+					}
+					walkRet(st, rb)
+				}
+				return false
+			case *ast.ReturnStmt:
+				if len(x.Results) == 2 && c18Expr(fset, x.Results[1]) != "nil" {
+					errReturns++
+					if rolledBack {
+						guardedReturns++
+					}
+				}
+			}
+			return true
+		})
+	}
+	for _, st := range comp.Body.List {
+		walkRet(st, false)
+	}
+	rollsBack := marksFirst && errReturns > 0 && errReturns == guardedReturns
+	restoresOf := func(fd *ast.FuncDecl, recv string) []string {
+		seen := map[string]bool{}
+		if fd == nil {
+			return nil
+		}
+		ast.Inspect(fd.Body, func(n ast.Node) bool {
+			switch x := n.(type) {
+			case *ast.AssignStmt:
+				for _, l := range x.Lhs {
+					if s := c18Expr(fset, l); strings.HasPrefix(s, recv+".") {
+						seen[s] = true
+					}
+				}
+			case *ast.CallExpr:
+				fn := c18Expr(fset, x.Fun)
+				if fn == "delete" && len(x.Args) == 2 && strings.HasPrefix(c18Expr(fset, x.Args[0]), recv+".") {
+					seen["delete:"+c18Expr(fset, x.Args[0])] = true
+				} else if strings.HasPrefix(fn, recv+".") && strings.Count(fn, ".") == 2 {
+					seen["call:"+fn] = true
+				}
+			}
+			return true
+		})
+		var out []string
+		for k := range seen {
+			out = append(out, k)
+		}
+		sort.Strings(out)
+		return out
+	}
+	rollbackRestores := restoresOf(c18FindFuncOpt(parse("compiler/code.go"), "Code", "rollback"), "c")
+	truncateRestores := restoresOf(c18FindFuncOpt(parse("compiler/symbol_table.go"), "SymbolTable", "truncate"), "t")
+	// --- runCodeInternal drops the previous run's operands before it resumes
+	dropsStack := false
+	activated := false
+	for _, st := range rci.Body.List {
+		if es, ok := st.(*ast.ExprStmt); ok {
+			if c, ok := es.X.(*ast.CallExpr); ok && c18Expr(fset, c.Fun) == "vm.activateCode" {
+				activated = true
+			}
+		}
+		is, ok := st.(*ast.IfStmt)
+		if !ok || activated || c18Expr(fset, is.Cond) != "!resetState" {
+			continue
+		}
+		for _, in := range is.Body.List {
+			fs, ok := in.(*ast.ForStmt)
+			if !ok || fs.Init != nil || fs.Post != nil || c18Expr(fset, fs.Cond) != "vm.sp >= 0" || len(fs.Body.List) != 1 {
+				continue
+			}
+			if es, ok := fs.Body.List[0].(*ast.ExprStmt); ok {
+				if c, ok := es.X.(*ast.CallExpr); ok && c18Expr(fset, c.Fun) == "vm.pop" {
+					dropsStack = true
 				}
 			}
 		}
-		return true
-	})
-	var assigns []string
-	for k := range seen {
-		assigns = append(assigns, k)
 	}
-	sort.Strings(assigns)
 	q := func(xs []string) string {
 		var ps []string
 		for _, x := range xs {
@@ -328,7 +426,10 @@ func c18_genC18(repo string) string {
 	s += "/-- `v.SetIP(code.InstructionCount())` in the error branch of `if err := v.Run(ctx)` -/\ndef replSetsIPAfterError : Bool := " + b(setsIP) + "\n\n"
 	s += "/-- the resetState argument (*VirtualMachine).Run passes to runCodeInternal -/\ndef runResetsState : Bool := " + reset + "\n\n"
 	s += "/-- reloadCode copies the old Globals slice into the newly loaded main code -/\ndef reloadCopiesGlobals : Bool := " + b(copies) + "\n\n"
-	s += "/-- everything (*Compiler).Compile assigns through its receiver -/\ndef compileAssigns : List String := " + q(assigns) + "\n\n"
+	s += "/-- (*Compiler).Compile takes c.main.mark() first and every error return follows c.main.rollback(mark) (error returns: " + strconv.Itoa(errReturns) + ") -/\ndef compileRollsBackOnError : Bool := " + b(rollsBack) + "\n\n"
+	s += "/-- what (*Code).rollback assigns and calls -/\ndef rollbackRestores : List String := " + q(rollbackRestores) + "\n\n"
+	s += "/-- what (*SymbolTable).truncate assigns and deletes from -/\ndef truncateRestores : List String := " + q(truncateRestores) + "\n\n"
+	s += "/-- runCodeInternal empties the operand stack under `if !resetState` before activating the entrypoint -/\ndef runStartsOnEmptyStack : Bool := " + b(dropsStack) + "\n\n"
 	s += "/-- per compile-only field of compiler.go: every compile function that sets it resets it in a deferred function -/\ndef compileOnlyRestores : List (String × Bool) := [" + strings.Join(restorePairs, ", ") + "]\n\n"
 	s += "/-- (*VirtualMachine).start clears vm.halt unconditionally (top level of its body) -/\ndef startClearsHaltUnconditionally : Bool := " + b(clearsHalt) + "\n\n"
 	s += "/-- runCodeInternal loads every function constant of the code on every run (loop at the top level of its body) -/\ndef loadsFunctionConstantsEveryRun : Bool := " + b(loadsEveryRun) + "\n\n"
